@@ -202,20 +202,34 @@ pub fn expr_values(e: &Expression) -> Value {
     plain
 }
 
-/// The harness' own evaluator, used only to decide whether the value depends on the sign of the literals' zero
-/// imaginary parts (expressions are interned with +0.0 == -0.0, so a flipped copy cannot be built as an Expression).
-fn own_eval(e: &Expression, flip: bool, salt: u64) -> Complex64 {
+/// The harness' own evaluator, used only to decide whether the value depends on the sign of a literal's zero
+/// imaginary part (expressions are interned with +0.0 == -0.0, so a flipped copy cannot be built as an Expression).
+/// `flip`: None = as is; Some((usize::MAX, mode)) = every literal; Some((k, mode)) = only the k-th literal (in
+/// evaluation order).  Printing turns -2.0i into -(2.0i) = (-0.0, -2.0): zero real parts change sign as well.
+fn own_eval(e: &Expression, flip: Option<(usize, u8)>, next: &mut usize, salt: u64) -> Complex64 {
     match e {
-        Expression::Number(c) => if flip && c.im == 0.0 { Complex64::new(c.re, -c.im) } else { *c },
+        Expression::Number(c) => {
+            let k = *next;
+            *next += 1;
+            match flip {
+                // mode bit 0: negate a zero imaginary part; bit 1: negate a zero real part
+                Some((which, mode)) if which == usize::MAX || which == k => Complex64::new(
+                    if mode & 2 != 0 && c.re == 0.0 { -c.re } else { c.re },
+                    if mode & 1 != 0 && c.im == 0.0 { -c.im } else { c.im },
+                ),
+                _ => *c,
+            }
+        }
         Expression::PiConstant() => Complex64::new(std::f64::consts::PI, 0.0),
         Expression::Variable(v) => Complex64::new(hash01(v, salt), hash01(v, salt + 100) - 0.7),
         Expression::Address(m) => Complex64::new(hash01(&format!("{}[{}]", m.name, m.index), salt), 0.0),
         Expression::Prefix(p) => {
-            let x = own_eval(&p.expression, flip, salt);
+            let x = own_eval(&p.expression, flip, next, salt);
             if p.operator == PrefixOperator::Minus { -x } else { x }
         }
         Expression::Infix(i) => {
-            let (l, r) = (own_eval(&i.left, flip, salt), own_eval(&i.right, flip, salt));
+            let l = own_eval(&i.left, flip, next, salt);
+            let r = own_eval(&i.right, flip, next, salt);
             match i.operator {
                 InfixOperator::Caret => l.powc(r),
                 InfixOperator::Plus => l + r,
@@ -225,7 +239,7 @@ fn own_eval(e: &Expression, flip: bool, salt: u64) -> Complex64 {
             }
         }
         Expression::FunctionCall(f) => {
-            let x = own_eval(&f.expression, flip, salt);
+            let x = own_eval(&f.expression, flip, next, salt);
             match f.function {
                 ExpressionFunction::Cis => x.cos() + Complex64::i() * x.sin(),
                 ExpressionFunction::Cosine => x.cos(),
@@ -237,10 +251,21 @@ fn own_eval(e: &Expression, flip: bool, salt: u64) -> Complex64 {
     }
 }
 fn sign_of_zero_matters(e: &Expression) -> bool {
+    let close = |x: f64, y: f64| x == y || (x.is_nan() && y.is_nan())
+        || (x.is_finite() && y.is_finite() && (x - y).abs() <= 1e-9 * x.abs().max(y.abs()).max(1.0));
     (0..3u64).any(|salt| {
-        let (a, b) = (own_eval(e, false, salt), own_eval(e, true, salt));
-        let close = |x: f64, y: f64| x == y || (x - y).abs() <= 1e-9 * x.abs().max(y.abs()).max(1.0) || (x.is_nan() && y.is_nan());
-        !(close(a.re, b.re) && close(a.im, b.im))
+        let mut n = 0;
+        let a = own_eval(e, None, &mut n, salt);
+        let literals = n;
+        // printing turns a negative literal into a negated positive one (-1 -> -(1)), which flips the sign of that
+        // literal's zero imaginary part only: try each literal on its own, and all together
+        (0..literals).chain(std::iter::once(usize::MAX)).any(|which| {
+            (1..=3u8).any(|mode| {
+                let mut k = 0;
+                let b = own_eval(e, Some((which, mode)), &mut k, salt);
+                !(close(a.re, b.re) && close(a.im, b.im))
+            })
+        })
     })
 }
 
